@@ -83,7 +83,7 @@ func main() {
 func tierConfig(tier string) (Config, exploreOpts) {
 	cfg := Config{MaxSteps: 3_000_000, MaxDecisions: 600, SplitMax: 4, RunesMax: 3, MapPerms: true, SolverMs: 8000}
 	eo := exploreOpts{Workers: 16, MaxPaths: 60000, ConcordMax: 400, SampleMax: 6,
-		Solvers: []string{"cvc5", "z3", "z3-new"}, SolverMs: []int{2500, 4000, 8000}}
+		Solvers: []string{"cvc5-1", "z3-1", "z3new-1"}, SolverMs: []int{2500, 4000, 8000}}
 	if tier == "thorough" {
 		eo.SolverMs = []int{5000, 10000, 20000}
 		eo.MaxPaths = 600000
